@@ -98,3 +98,41 @@ Proof.
   destruct (frame_error_head c r a _ _ body Hc He' Hh H1 H2 H3 Hraw) as [fields [P [F [_ [_ R]]]]].
   exists fields. split; [exact P | split; [exact F | exact R]].
 Qed.
+
+(* ---- "stops consuming", at the level of the I/O loop -------------------------
+
+   C06_stop says that received() consumes nothing once the connection is closing.
+   The loop-level half: the I/O loop does not even call recv() then.  Both loop
+   bodies (wasyncore.poll and poll2 + readwrite) and HTTPChannel.readable are
+   regenerated from the source on every run (Gen/GenPreds.v); Proof/ServerLoop.v
+   proves that a read event is dispatched only to an object whose readable() was
+   true at scan time.  Composed with the generated readable predicate: a channel
+   that is marked will_close or close_when_flushed, has output pending, or has
+   more than `lookahead` requests queued gets no handle_read_event in that turn,
+   whichever loop variant runs (asyncore_use_poll on or off) and whatever the
+   kernel reports (within the stated select / poll contract). *)
+From WV Require Import Gen.GenPreds Proof.ServerBase Proof.ServerLoop.
+
+Theorem no_read_when_not_readable_select wc cwf n la tot w a ret_r ret_w ret_e :
+  (wc || cwf || (la <? n)%Z || negb (tot =? 0)%Z) = true ->
+  select_returns (gen_poll_r (gen_chan_readable wc cwf n la tot) w a)
+                 (gen_poll_w (gen_chan_readable wc cwf n la tot) w a)
+                 (gen_poll_e (gen_chan_readable wc cwf n la tot) w a) ret_r ret_w ret_e ->
+  sel_read (select_turn ret_r ret_w ret_e) = false.
+Proof.
+  intros H Hs.
+  destruct (sel_read (select_turn ret_r ret_w ret_e)) eqn:E; [|reflexivity].
+  pose proof (proj1 loop_read_only_if_readable _ _ _ _ _ _ Hs E) as R.
+  rewrite gen_chan_readable_spec, H in R. discriminate R.
+Qed.
+
+Theorem no_read_when_not_readable_poll2 wc cwf n la tot w a rv :
+  (wc || cwf || (la <? n)%Z || negb (tot =? 0)%Z) = true ->
+  poll_returns (gen_poll2_reg (gen_chan_readable wc cwf n la tot) w a) rv ->
+  p2_read (poll2_turn rv) = false.
+Proof.
+  intros H Hs.
+  destruct (p2_read (poll2_turn rv)) eqn:E; [|reflexivity].
+  pose proof (proj2 loop_read_only_if_readable _ _ _ _ Hs E) as R.
+  rewrite gen_chan_readable_spec, H in R. discriminate R.
+Qed.
